@@ -305,7 +305,8 @@ def replay(pid, payload, ctx):
         print("harness does not build")
         return 1
     ans = run_program(ctx, exe, payload["program"], "replay")
-    drv = ctx["drv_path"]("mmdrv_ledger")
+    subprocess.run(["lake", "build", "mmdrv_ledger"], cwd=os.path.join(ctx["here"], "lean"), stdout=subprocess.PIPE, stderr=subprocess.STDOUT)
+    drv = os.path.join(ctx["here"], "lean", ".lake", "build", "bin", "mmdrv_ledger")
     model = subprocess.run([drv], input="\n".join(payload["program"]) + "\n", stdout=subprocess.PIPE, text=True).stdout.split("\n") if os.path.exists(drv) else []
     print("program:")
     for l in payload["program"]:
@@ -321,7 +322,7 @@ def replay(pid, payload, ctx):
     hits = [(k, w) for k, w, _ in scan_program(pid, payload["program"], ans) if k == payload.get("key")]
     if hits:
         print(f"property oracle: {hits[0][1]}")
-        print(f"VIOLATION property={pid} replay={ctx.get('path', '')}")
+        print(f"VIOLATION property={pid} replay={ctx.get('path', payload.get('key', ''))}")
         return 1
     print("replay: the property oracle accepts this program on the current tree")
     return 0
